@@ -111,6 +111,9 @@ pub struct St {
     /// snapshots written by a stale handle which may need the next prune to recover their blobs
     pub pending: BTreeSet<String>,
     pub list_rev: bool,
+    /// model clock at which each pack that is listed as marked for deletion was first seen marked
+    /// (kept by the harness: the time the index records for a marked pack is the subject's claim)
+    pub marked_at: BTreeMap<String, i64>,
 }
 
 pub struct C02 {
@@ -148,6 +151,7 @@ pub fn fresh_repo(collide: bool) -> St {
         clock: 0,
         pending: BTreeSet::new(),
         list_rev: false,
+        marked_at: BTreeMap::new(),
     }
 }
 
@@ -258,6 +262,18 @@ impl SeqModel for C02 {
         let mut lines = canon_store_at(&self.raw, &s.store, Some(now_s(s.clock)));
         lines.push(format!("nbackups={} pending={:?} rev={}", s.nbackups, s.pending, s.list_rev));
         lines.push(format!("stale-handles={}", s.prev.len()));
+        // ages of the marks as the harness saw them, in the buckets of the store's canonical form
+        let mut ages: Vec<&'static str> = s
+            .marked_at
+            .values()
+            .map(|t| match s.clock - t {
+                a if a < 5400 => "young",
+                a if a < 82800 => "mid",
+                _ => "old",
+            })
+            .collect();
+        ages.sort_unstable();
+        lines.push(format!("marks-seen={ages:?}"));
         lines.join("\n")
     }
 
@@ -344,20 +360,29 @@ impl SeqModel for C02 {
                     }
                     let h = hex_id(&pid);
                     let listed: Vec<_> = before.iter().filter(|p| p.pack_id == h).collect();
+                    // both clocks must agree: the time the index recorded for the mark, and the
+                    // model clock at which the harness first saw the pack marked
                     let marked_old_enough = listed.iter().any(|p| {
                         p.marked
                             && p.time
                                 .as_ref()
                                 .and_then(|t| t.parse::<jiff::Timestamp>().ok())
                                 .is_some_and(|t| now - t.as_second() >= kd - 2)
-                    });
+                    }) && s.marked_at.get(&h).is_some_and(|t| s.clock - t + 5 >= kd);
                     if !(opts.instant_delete || marked_old_enough) {
                         return Err((
                             "C02/prune/pack-removed-too-early".into(),
                             format!("prune[{name}] removed pack {} which was not marked for at least keep-delete ({kd}s); listed as {:?}",
-                                &h[..8], listed.iter().map(|p| (p.marked, p.time.clone())).collect::<Vec<_>>()),
+                                &h[..8], listed.iter().map(|p| (p.marked, p.time.clone(), s.marked_at.get(&h).map(|t| s.clock - t))).collect::<Vec<_>>()),
                         ));
                     }
+                }
+                // remember when each marked pack was first seen marked
+                let after = index_packs(&self.raw, &n.store).unwrap_or_default();
+                let marked_now: BTreeSet<String> = after.iter().filter(|p| p.marked).map(|p| p.pack_id.clone()).collect();
+                n.marked_at.retain(|k, _| marked_now.contains(k));
+                for k in marked_now {
+                    _ = n.marked_at.entry(k).or_insert(s.clock);
                 }
                 // a completed prune recovers what pending snapshots need
                 n.pending.clear();
